@@ -135,6 +135,7 @@ type frame struct {
 	a     *analysis
 	split map[ssa.Value][2]dset // call value -> (defined on success, defined on failure)
 	stale map[*ssa.UnOp]bool    // loads of receiver fields that observed a not-yet-defined field
+	up    *frame                // the frame whose call expanded this one
 }
 
 // Analyze runs the analysis with parameter recvIdx as the receiver.
@@ -630,6 +631,11 @@ func (f *frame) written(key string, x *ssa.Store) {
 
 // hasOverwriteLoop: some store in a loop writes an element of the slice held in field key.
 func (f *frame) hasOverwriteLoop(key string) bool {
+	// the loop that overwrites every element may be in the function that called the helper which
+	// re-slices the field (resize in a helper, fill in the caller)
+	if f.up != nil && f.up.hasOverwriteLoop(key) {
+		return true
+	}
 	for _, b := range f.fn.Blocks {
 		for _, in := range b.Instrs {
 			s, ok := in.(*ssa.Store)
@@ -697,7 +703,7 @@ func (f *frame) call(x *ssa.Call, d dset) {
 	if !relevant {
 		return
 	}
-	cf := &frame{fn: callee, bind: bind, a: f.a}
+	cf := &frame{fn: callee, bind: bind, a: f.a, up: f}
 	f.a.depth++
 	succ, fail := cf.run(d, false)
 	f.a.depth--
